@@ -428,6 +428,18 @@ def check_stop_invariant(prog: Program, res: Result) -> None:
                     isinstance(x, ast.Call) and call_name(x) == "np.unique"
                     for d in du.dep_nodes(node.test) for x in ast.walk(d))
                 bad = deps - allowed
+                # colours may enter the test only through the class count
+                for d in du.dep_nodes(node.test):
+                    for x in ast.walk(d):
+                        if isinstance(x, ast.Name) and x.id == "atom_hash" \
+                                and isinstance(x.ctx, ast.Load):
+                            chain = [a for a in ancestors(x)]
+                            inside = any(isinstance(a, ast.Call) and call_name(a)
+                                         in ("np.unique", "next") for a in chain)
+                            is_def = isinstance(parent(x), ast.Assign)
+                            if not inside and not is_def and any(
+                                    a is node.test for a in [x] + chain):
+                                bad = bad | {"atom_hash (raw colours)"}
                 if bad or not classes:
                     res.bad("R-STOP-INV", inst, fi.loc(node),
                             f"{inst}: depends on {sorted(bad) or 'no class count'}")
@@ -625,8 +637,20 @@ def check_final_hash(prog: Program, res: Result) -> None:
         ok = False
         why = "return form not recognised"
         if len(rets) == 1:
-            v = rets[0].value
+            from .pe import resolve
+            v = resolve(rets[0].value, fi.node)
+            # keep the colour array symbolic: only undo `x = hash(...)` locals
             if isinstance(v, ast.Call) and call_name(v) == "int" and v.args \
+                    and isinstance(v.args[0], ast.Call) and call_name(
+                    v.args[0]) == MSET_H and isinstance(
+                    v.args[0].args[0], ast.Call) and call_name(
+                    v.args[0].args[0]) == f"color_refine_{k}" and len(
+                    du.defs.get("color_array", [1])) <= 1:
+                ok = True
+            v = rets[0].value
+            if ok:
+                pass
+            elif isinstance(v, ast.Call) and call_name(v) == "int" and v.args \
                     and isinstance(v.args[0], ast.Call) and call_name(
                     v.args[0]) == MSET_H and len(v.args[0].args) == 1:
                 a = v.args[0].args[0]
